@@ -1,2 +1,2 @@
 import LanceModel.C17.Driver
-def main : IO Unit := LanceModel.Util.runDriver LanceModel.C17.Driver.step []
+def main : IO Unit := LanceModel.Util.runDriver LanceModel.C17.Driver.step LanceModel.C17.Driver.St.init
